@@ -13,6 +13,11 @@ INJECT = {"pkg/ethereum": [(os.path.join(vlib.HARNESS, "common", "vh.go"), "ethe
                            (os.path.join(vlib.HARNESS, "ethereum", "evm_harness.go"), "ethereum")]}
 
 ENV_EVS = {"NewHead", "Mine", "Reorg", "Remine", "DropReceipt", "FailTx", "Arm"}
+# error texts of the fake node's one-shot transient failures (harness evErrTexts): a generic one, geth's
+# "header not found" / "block not found" of a lagging backend, "not found: try again", JSON-RPC errors with code
+# and data, a timeout-like one.  The genuine "unknown transaction" answers (null result / exact "not found") are
+# chosen per scenario with cfg.nf.
+ERR_TEXTS = ["generic", "header", "block", "retry", "coded", "timeout", "unknownbk"]
 REAL_W = 60   # Watcher.maxWaitConfirmations default (watcher.go NewEthWatcher); the harness logs the value it reads
 
 
@@ -39,7 +44,8 @@ def tlc_scenarios(work, n, depth, seed_, overrides=None):
     return [from_tlc(h) for h in hs[:n]]
 
 
-def from_tlc(h):
+def from_tlc(h, rnd=None):
+    rnd = rnd or random.Random(json.dumps(h, sort_keys=True))
     steps = []
     head_step = None      # last top-level NewHead
     in_scan = False
@@ -49,7 +55,9 @@ def from_tlc(h):
     for x in h["hist"]:
         ev, a = x["ev"], x["a"]
         if ev in ENV_EVS:
-            st = {"ev": ev, "a": a}
+            st = {"ev": ev, "a": dict(a)}
+            if ev == "Arm":
+                st["a"]["text"] = rnd.choice(ERR_TEXTS)
             if reobs is not None and after_rhead:
                 reobs.setdefault("mid", [{"after": 0, "steps": []}])[0]["steps"].append(st)
             elif in_scan and head_step is not None:
@@ -81,7 +89,8 @@ def from_tlc(h):
         elif ev == "H_Receipt":
             rcpts += 1
     lat = h["latest"]
-    return {"cfg": {"fin": h["fin"], "W": h["W"]}, "init": {"latest": lat, "final": 1}, "steps": steps, "src": "tlc"}
+    return {"cfg": {"fin": h["fin"], "W": h["W"], "nf": rnd.choice(["null", "error"])}, "init": {"latest": lat, "final": 1},
+            "steps": steps, "src": "tlc"}
 
 
 CL_CLASSES = [0, 0, 1, 1, 2, 5, 15, 32, 64, 200, 255]
@@ -119,15 +128,18 @@ class Gen:
                 self.simple(S, "DropReceipt")
             elif x < 0.78:
                 self.simple(S, "FailTx")
-            elif x < 0.86:
-                S["steps"].append({"ev": "Arm", "a": {"kind": r.choice(["poll", "rhead", "hreceipt", "hreceipt", "rreceipt", "rtime"])}})
+            elif x < 0.84:
+                S["steps"].append({"ev": "Arm", "a": {"kind": r.choice(["poll", "rhead", "hreceipt", "hreceipt", "rreceipt", "rtime"]),
+                                                      "text": r.choice(ERR_TEXTS)}})
+            elif x < 0.92 and S["pend"]:
+                self.error_at_depth(S)
             else:
                 self.reobserve(S)
         # let everything that can be confirmed be confirmed
         if r.random() < 0.8:
             self.head(S, force=r.choice([1, 3, 70, 200]))
             self.head(S, force=1)
-        return {"cfg": {"fin": fin, "W": 0}, "init": init, "steps": S["steps"], "src": "gen"}
+        return {"cfg": {"fin": fin, "W": 0, "nf": r.choice(["null", "error"])}, "init": init, "steps": S["steps"], "src": "gen"}
 
     def tag_head(self, S):
         return S["final"] if S["fin"] else S["latest"]
@@ -203,6 +215,25 @@ class Gen:
                 S["final"] += 61
             st["mid"] = [{"after": r.choice([0, 1, 1, 2]), "steps": mid}]
         S["steps"].append(st)
+
+    def error_at_depth(self, S):
+        """A transient failure of the receipt lookup exactly at the head where a pending message reaches its depth (or
+        a little / much later), then more heads: the message must stay pending and be forwarded by a later scan.
+        With some probability the same failure also hits a re-observation of that transaction."""
+        r = self.r
+        cur = self.tag_head(S)
+        cands = [(tx, b, cl) for (tx, b, cl) in S["pend"] if b + self.conf(S, cl) > cur]
+        if not cands:
+            return self.mine_and_push(S)
+        tx, b, cl = r.choice(cands)
+        when = r.choice([0, 0, 0, 1, 2, 30])
+        S["steps"].append({"ev": "Arm", "a": {"kind": "hreceipt", "text": r.choice(ERR_TEXTS)}})
+        self.head(S, force=b + self.conf(S, cl) + when - cur)
+        if r.random() < 0.4:
+            S["steps"].append({"ev": "Arm", "a": {"kind": r.choice(["rreceipt", "rhead", "rtime"]), "text": r.choice(ERR_TEXTS)}})
+            S["steps"].append({"ev": "Reobserve", "a": {"tx": tx}})
+        for _ in range(r.choice([1, 2, 2])):
+            self.head(S, force=r.choice([1, 1, 2, 5]))
 
     def reorg(self, S):
         r = self.r
